@@ -24,11 +24,11 @@ CLAUSES = ["Discretises", "Symmetric", "SingleValued", "ConstantZero", "KOrthExa
 
 def tier(ctx):
     if ctx.quick:
-        return dict(sizes=[(3,), (1, 1), (2, 1), (3, 2), (1, 1, 1), (2, 2, 1)],
-                    mods=["none", "tensor", "pert", "shear"], nvar=1, nk=1, nmask=2, exhnb=2)
+        return dict(sizes=[(3,), (1, 1), (3, 2), (1, 1, 1), (2, 2, 1)],
+                    mods=["none", "tensor", "pert", "shear"], nvar=1, nk=1, nmask=2, exhnb=2, nti=3)
     return dict(sizes=[(1,), (2,), (3,), (1, 1), (2, 1), (2, 2), (3, 1), (3, 2), (3, 3), (1, 1, 1), (2, 1, 1), (2, 2, 1),
                        (2, 2, 2), (3, 2, 2), (3, 3, 2)],
-                mods=["none", "tensor", "pert", "shear"], nvar=2, nk=2, nmask=3, exhnb=4)
+                mods=["none", "tensor", "pert", "shear"], nvar=2, nk=2, nmask=3, exhnb=4, nti=3)
 
 
 def wants_mpfa(s):
@@ -55,7 +55,8 @@ def execute(ctx, cfgs, tag):
 def run(ctx):
     ctx.rule = ("TLC enumerates (grid recipe: 1D/2D/3D Cartesian and tensor grids, structured triangles / Kuhn tetrahedra, "
                 "sizes <= 3 per direction, unit / non-uniform spacing / lattice perturbation / integer shear) x (tensor: "
-                "constant diagonal, constant full, per-cell diagonal, per-cell arbitrary from an SPD catalogue) x "
+                "constant diagonal incl. transversely isotropic in all three axis positions, constant full, per-cell diagonal, "
+                "per-cell transversely isotropic, per-cell arbitrary from an SPD catalogue) x "
                 "(Dirichlet/Neumann mask: all masks on small grids, all-Dirichlet + seeded masks otherwise).  One "
                 "evaluation = one configuration whose four TPFA matrices TLC judged entrywise; classes = (dim, kind, "
                 "modification, size, tensor mode/class, mask class); non-trivial = several cells")
